@@ -460,6 +460,13 @@ fn near_misses(s: &str, wild: bool) -> Vec<String> {
         for suf in ["", "a", "abc.def", "*", ".", "..", "é", " ", "A"] {
             v.push(format!("{s}{suf}"));
         }
+        // suffixes that themselves begin with (or are) the prefix: a conversion that strips the
+        // prefix repeatedly, or searches for it instead of cutting it once, loses part of the suffix
+        v.push(format!("{s}{s}"));
+        v.push(format!("{s}{s}abc"));
+        v.push(format!("{s}{s}{s}x"));
+        v.push(format!("{s}x{s}"));
+        v.push(format!("{s}{}", s.trim_end_matches('.')));
     }
     v
 }
@@ -632,7 +639,12 @@ fn random_string(rng: &mut Rng, w: &World, i: usize) -> (String, &'static str) {
         }
         4 if !wilds.is_empty() => {
             let p = (*rng.pick(&wilds)).clone();
-            let suf = if rng.chance(1, 6) { String::new() } else { random_text(rng) };
+            let suf = match rng.below(8) {
+                0 => String::new(),
+                1 => format!("{p}{}", random_text(rng)),
+                2 => format!("{p}{p}"),
+                _ => random_text(rng),
+            };
             (format!("{p}{suf}"), "wildcard")
         }
         5 if !wilds.is_empty() => {
